@@ -204,6 +204,7 @@ func Run(c *engine.Ctx) {
 		return r
 	})
 	L := Lists(c.Thorough(), "pairs")
+	SameObjectGroup(c, "Union", L, func(a, b *sbom.NodeList) *sbom.NodeList { return a.Union(b) })
 	c.Group("pairs")
 	c.Bound("pairs", fmt.Sprintf("all %d x %d ordered pairs of list specs (ids a,b,c; <=1 edge object of <=2 targets over 2 types, plus 2-object lists per (source,type); all root subsets; ill-formed included)", len(L), len(L)))
 	empty := gen.ListSpec{}
